@@ -5008,8 +5008,11 @@ USER_NVRAM_Unmarshal(BYTE **buffer, INT32 *size)
                     rc = Array_Unmarshal(buf, datasize, buffer, size);
                     NvWrite(entryRef + o + offset, datasize, buf);
                     offset += datasize;
-
-                    /* update the entry size; account for expanding nvi */
+                }
+                if (rc == TPM_RC_SUCCESS) {
+                    /* update the entry size; account for expanding nvi. Do not
+                     * keep the entry size from the blob for datasize == 0
+                     * either: it is what the NV list is walked with. */
                     entrysize = sizeof(UINT32) + sizeof(nvi) + datasize;
                 }
                 break;
@@ -5030,6 +5033,21 @@ USER_NVRAM_Unmarshal(BYTE **buffer, INT32 *size)
 
                     memset(&obj, 0, sizeof(obj));
                     rc = ANY_OBJECT_Unmarshal(&obj, buffer, size, true);
+                    if (rc == TPM_RC_SUCCESS) {
+                        /* NvObjectToBuffer() FAIL()s on any other type */
+                        switch (obj.publicArea.type) {
+                        case TPM_ALG_RSA:
+                        case TPM_ALG_ECC:
+                        case TPM_ALG_KEYEDHASH:
+                        case TPM_ALG_SYMCIPHER:
+                            break;
+                        default:
+                            TPMLIB_LogTPM2Error("USER_NVRAM: persistent object 0x%08x "
+                                                "has unknown type 0x%x\n",
+                                                handle, obj.publicArea.type);
+                            rc = TPM_RC_TYPE;
+                        }
+                    }
                     if (rc == TPM_RC_SUCCESS) {
                         // convert the OBJECT into a buffer to copy into NVRAM
                         marshalledObjectSize = NvObjectToBuffer(&obj, objBuffer, sizeof(objBuffer));
